@@ -258,7 +258,7 @@ class ValidatorStub:
 
 
 SAFE_BUILTINS = {
-    "len": _len, "enumerate": enumerate, "zip": zip, "any": any, "all": all, "list": list, "set": set, "sorted": sorted,
+    "len": _len, "enumerate": enumerate, "zip": zip, "any": any, "all": all, "list": list, "set": set, "sorted": sorted, "bytes": bytes, "bytearray": bytearray,
     "iter": iter, "next": next, "isinstance": isinstance, "repr": repr, "str": str, "map": map, "dict": dict,
     "tuple": tuple, "range": range, "min": min, "max": max, "bool": bool, "int": int, "float": float, "sum": sum,
     "reversed": reversed, "filter": filter, "frozenset": frozenset, "abs": abs, "type": type, "object": object,
@@ -501,6 +501,10 @@ class Ev:
         if not (isinstance(r, tuple) and r[0] == "expr"):
             raise Undecided("cannot preset %s.%s" % (modname, name))
         self.modvals[id(r[2])] = value
+
+    def override_func(self, qual, value):
+        """Replace a package function, wherever its name is looked up, by a stand-in."""
+        self.__dict__.setdefault("func_override", {})[qual] = value
 
     def module_value(self, modname, name):
         return self.resolved(self.prog.resolve_name(self.prog.mods[modname], name), name)
@@ -1033,10 +1037,15 @@ class Ev:
             locs = self.__dict__.setdefault("_locals_of", {})
             if id(func) not in locs:
                 bound = set()
-                for n in ast.walk(func.node):
-                    if isinstance(n, ast.Name) and isinstance(n.ctx, (ast.Store, ast.Del)):
+                from .prog import walk_body as _wb
+                comp_targets = set()
+                for n in _wb(func):
+                    if isinstance(n, ast.comprehension):
+                        comp_targets |= {id(x) for x in ast.walk(n.target)}
+                for n in _wb(func):         # the function's own statements: not nested defs, classes or lambdas
+                    if isinstance(n, ast.Name) and isinstance(n.ctx, (ast.Store, ast.Del)) and id(n) not in comp_targets:
                         bound.add(n.id)
-                for n in ast.walk(func.node):
+                for n in _wb(func):
                     if isinstance(n, (ast.Global, ast.Nonlocal)):
                         bound -= set(n.names)
                 locs[id(func)] = bound
@@ -1052,6 +1061,8 @@ class Ev:
         return self.resolved(r, name)
 
     def resolved(self, r, label=""):
+        if isinstance(r, Func) and r.qual in self.__dict__.get("func_override", {}):
+            return self.func_override[r.qual]       # a package function replaced by the rule's stand-in (a recorder)
         if isinstance(r, Func):
             memo = [d for d in r.decorators if norm(d.func if isinstance(d, ast.Call) else d).split(".")[-1] in ("lru_cache", "cache")]
             if memo:
